@@ -31,9 +31,62 @@ FIRST_CONTACT_R2 = {
 }
 
 
+FIRST_CONTACT_R4 = {
+    "C01-r4A": "reported (partly for a wrong reason)", "C01-r4B": "other check only (C08); target undecided",
+    "C02-r4A": "undecided", "C02-r4B": "undecided (C09, whose subject it is, silent)",
+    "C03-r4A": "reported (for a wrong reason)", "C03-r4B": "undecided",
+    "C04-r4A": "undecided", "C04-r4B": "reported",
+    "C05-r4A": "undecided", "C05-r4B": "silent (and a false alarm of C08)",
+    "C06-r4A": "reported", "C06-r4B": "reported",
+    "C07-r4A": "reported (partly for a wrong reason)", "C07-r4B": "undecided",
+    "C08-r4A": "analysis crashed (engine defect); false alarm of C20", "C08-r4B": "reported",
+    "C09-r4A": "other check only (C03)", "C09-r4B": "reported",
+    "C10-r4A": "undecided", "C10-r4B": "undecided",
+    "C11-r4A": "undecided", "C11-r4B": "reported",
+    "C12-r4A": "undecided", "C12-r4B": "silent",
+    "C13-r4A": "silent", "C13-r4B": "silent",
+    "C14-r4A": "reported (for a wrong reason)", "C14-r4B": "reported",
+    "C15-r4A": "reported (for a wrong reason)", "C15-r4B": "undecided",
+    "C16-r4A": "undecided", "C16-r4B": "reported",
+    "C17-r4A": "reported", "C17-r4B": "reported",
+    "C18-r4A": "reported", "C18-r4B": "reported",
+    "C19-r4A": "reported", "C19-r4B": "reported",
+    "C20-r4A": "reported (for a wrong reason; false alarm of C06)", "C20-r4B": "reported (for a wrong reason)",
+}
+
+
+def table_r3(root):
+    rows = []
+    full = part = 0
+    tgt_und = 0
+    for d in sorted(os.listdir(root)):
+        if "-r3" not in d:
+            continue
+        mp = os.path.join(root, d, "meta.json")
+        if not os.path.isfile(mp):
+            continue
+        m = json.load(open(mp))
+        und = sorted(m.get("undecided_for", {}))
+        if und:
+            part += 1
+        else:
+            full += 1
+        if m["property"] in und:
+            tgt_und += 1
+        rows.append("| %s | %s | %d | %s | %s |" % (d, m["property"], len(m.get("clean_for", [])), " ".join(und) or "-", (m.get("what") or "").replace("|", "/")[:110]))
+    print("| refactoring | written for | checks silent and decided | checks answering undecided | what it is |")
+    print("|---|---|---|---|---|")
+    print("\n".join(rows))
+    print()
+    print("%d refactorings: %d decided clean by all 20 checks, %d with at least one undecided answer (the target property's own check undecided for %d); none is reported as a violation." % (full + part, full, part, tgt_und))
+
+
 def main():
     rnd = sys.argv[1] if len(sys.argv) > 1 else "r2"
     root = os.path.join(HERE, "seeded")
+    if rnd == "r3":
+        return table_r3(root)
+    first = FIRST_CONTACT_R4 if rnd == "r4" else FIRST_CONTACT_R2
     rows = []
     for d in sorted(os.listdir(root)):
         if ("-" + rnd) not in d:
@@ -42,14 +95,14 @@ def main():
         if not os.path.isfile(mp):
             continue
         m = json.load(open(mp))
-        fired = " ".join(m.get("checks_reporting_it", [])) or "none (undecided: exit 2)"
+        fired = " ".join(m.get("checks_reporting_it", [])) or "none (undecided, exit 2: %s)" % " ".join(m.get("checks_undecided_on_it", []) or ["target"])
         nb = len(m.get("benign_parts", []))
-        rows.append("| %s | %s | %s | %s | %s | %s |" % (d, m["property"], fired, FIRST_CONTACT_R2.get(d, "?"), nb or "", (m.get("strengthening") or "-").replace("|", "/")))
+        rows.append("| %s | %s | %s | %s | %s | %s |" % (d, m["property"], fired, first.get(d, "?"), nb or "", (m.get("strengthening") or "-").replace("|", "/")))
     print("| seed | target | reported by (now) | at first contact | benign parts kept | what was strengthened |")
     print("|---|---|---|---|---|---|")
     print("\n".join(rows))
     fc = {}
-    for k, v in FIRST_CONTACT_R2.items():
+    for k, v in first.items():
         key = v.split(" (")[0]
         fc[key] = fc.get(key, 0) + 1
     print()
